@@ -27,10 +27,10 @@ inductive Val | nd | d (k : Nat) | nd2
 /-- exception classes: `runtime` = RuntimeError (locked input), `type` = TypeError,
 `recursion` = RecursionError (receiver chain deeper than the recursion limit / cyclic),
 `conn` = ChannelConnectionError, `value` = ValueError, `copy` = ValueCopyError,
-`readiness` = ReadinessError, `serial` = `pickle.dumps` / `loads` of a round trip raised (AttributeError
+`readiness` = ReadinessError, `child` = FailedChildError (a composite whose child raised), `serial` = `pickle.dumps` / `loads` of a round trip raised (AttributeError
 for a macro input without receiver, KeyError for a label that cannot be resolved inside the
 composite, or whatever `connect` / the receiver setter raise during `__setstate__`) -/
-inductive Err | runtime | type | recursion | conn | value | copy | readiness | serial
+inductive Err | runtime | type | recursion | conn | value | copy | readiness | serial | child
   deriving DecidableEq, Repr, Inhabited
 
 /-- behaviour switches of `__getstate__` / `__setstate__` (cf. C07's model):
@@ -61,6 +61,8 @@ structure Params where
   admits : Nat → Val → Bool
   hintOk : Nat → Nat → Bool
   fn     : Nat → List Val → List Val
+  /-- python's `==` between a cached input dict and the present one (`Node.cache_hit`); values may lie -/
+  eqArgs : List Val → List Val → Bool := fun a b => decide (a = b)
   /-- what a value comes back as from `pickle.loads(pickle.dumps(v))`; the current tree maps the
   marker to the marker (`NotData.__reduce__` names the global singleton) and data to an equal copy -/
   copyVal : Val → Val := id
@@ -81,6 +83,17 @@ structure S where
   failed  : Nat → Bool
   /-- call log of the wrapped functions: (node, arguments in input-panel order) -/
   calls   : List (Nat × List Val)
+  /-- `use_cache` of a node (static) -/
+  useCache : Nat → Bool
+  /-- `_cached_inputs`: the input values (panel order) the present outputs belong to -/
+  cached  : Nat → Option (List Val)
+  /-- the jobs of a node that are out on an executor, oldest first: the arguments each was submitted with
+  (more than one only if `running` was reset by hand while a job was out) -/
+  pending : Nat → List (List Val)
+  /-- children of a composite in the order its execution graph visits them (static; `[]` = not a composite) -/
+  kids    : Nat → List Nat
+  /-- siblings whose `ran` a child waits for (static; the automated all-of wiring of a DAG) -/
+  deps    : Nat → List Nat
   /-- ghost: number of effective connects so far -/
   clock   : Nat
   /-- ghost: `since a b` = clock value at which the present connection a–b became effective -/
@@ -88,7 +101,7 @@ structure S where
 
 /-- what an operation ends with: returned normally / raised `e` / (run only) the wrapped
 function was invoked and storing its result raised `e?` -/
-inductive Out | ok | err (e : Err) | invoked (e : Option Err)
+inductive Out | ok | err (e : Err) | invoked (e : Option Err) | hit | submitted
   deriving DecidableEq, Repr, Inhabited
 
 def Out.isInvoked : Out → Bool
@@ -282,6 +295,111 @@ def runNode (P : Params) (fuel : Nat) (s : S) (n : Nat) (kw : List (Nat × Arg))
            .invoked (some e))
       else (s2, .err .readiness)
 
+/-! ## the general run: cache, composites, executors
+
+`runNode` above is `Node.run` of a function node that runs locally with the cache off.  The general
+form splits the run where the code does: **admission** (`set_input_values` → `inputs.fetch()` → the
+cache decision and the readiness gate of `Node._before_run`; `running = True`) and **finish**
+(`_finish_run`: `running = False`, `process_run_result`, `_run_succeeded` writes the cache,
+`_run_exception` marks `failed` and drops the cache).  A local run does both at once; a run on an
+executor returns between the two (`submitRun` / `completeRun`): the fetch and the gate happen in
+the submitting process, on the local channels, and the function later runs — possibly on a pickled
+copy of the node — with the arguments snapshotted at submission (`run_args` is evaluated in `_run`).
+A composite that is admitted runs its children (`runKids`), each through its own `run()`. -/
+
+inductive Adm | refused (e : Err) | hit | admitted (args : List Val)
+  deriving DecidableEq, Repr, Inhabited
+
+/-- `Node.cache_hit` -/
+def cacheHit (P : Params) (s : S) (n : Nat) (args : List Val) : Bool :=
+  match s.cached n with
+  | some old => P.eqArgs old args
+  | none => false
+
+/-- `Node.run` up to and including `self.running = True` -/
+def admission (P : Params) (fuel : Nat) (s : S) (n : Nat) (kw : List (Nat × Arg)) : S × Adm :=
+  match setInputs P fuel s kw with
+  | (s1, some e) => (s1, .refused e)
+  | (s1, none) =>
+    match fetchAll P fuel s1 (s1.ins n) with
+    | (s2, some e) => (s2, .refused e)
+    | (s2, none) =>
+      let args := (s2.ins n).map s2.val
+      if nodeReady P s2 n then
+        -- "read and use cache — but only where an actual run would be admitted too"
+        if s2.useCache n && cacheHit P s2 n args then (s2, .hit)
+        else ({ s2 with cached := updF s2.cached n none, running := updF s2.running n true }, .admitted args)
+      else (s2, .refused .readiness)
+
+/-- `_finish_run` of a function node whose function was called on `args` -/
+def finishRun (P : Params) (fuel : Nat) (s : S) (n : Nat) (args : List Val) : S × Out :=
+  let s3 := { s with calls := s.calls ++ [(n, args)], running := updF s.running n false }
+  match setOutputs P fuel s3 (s3.outs n) (P.fn n args) with
+  | (s4, none) =>
+    ({ s4 with cached := if s4.useCache n then updF s4.cached n (some args) else s4.cached }, .invoked none)
+  | (s4, some e) =>
+    ({ s4 with failed := updF s4.failed n true, cached := updF s4.cached n none }, .invoked (some e))
+
+/-- the children of an admitted composite, in the order of its execution graph: a child is
+started once every sibling it waits for has emitted `ran` (ran, or answered from its cache); an
+exception of a child is collected and the others go on -/
+def runKids (run : S → Nat → S × Out) (deps : Nat → List Nat) :
+    S → List Nat → List Nat → Bool → S × Bool
+  | s, [], _, bad => (s, bad)
+  | s, k :: ks, done, bad =>
+    if (deps k).all (fun d => decide (d ∈ done)) then
+      match run s k with
+      | (s', .invoked none) => runKids run deps s' ks (k :: done) bad
+      | (s', .hit) => runKids run deps s' ks (k :: done) bad
+      | (s', _) => runKids run deps s' ks done true
+    else runKids run deps s ks done bad
+
+/-- "start from a broken process": children that are `running` when the composite starts are simply
+`run()` again, in child order, outside any `try` — the first exception escapes as it is -/
+def runFirst (run : S → Nat → S × Out) : S → List Nat → S × Option Err
+  | s, [] => (s, none)
+  | s, k :: ks =>
+    match run s k with
+    | (s', .err e) => (s', some e)
+    | (s', .invoked (some e)) => (s', some e)
+    | (s', _) => runFirst run s' ks
+
+/-- `node.run(**kw)` of any node, locally; `d` bounds the nesting depth of composites -/
+def runAny (P : Params) (fuel : Nat) : Nat → S → Nat → List (Nat × Arg) → S × Out
+  | 0, s, _, _ => (s, .err .recursion)
+  | d + 1, s, n, kw =>
+    match admission P fuel s n kw with
+    | (s', .refused e) => (s', .err e)
+    | (s', .hit) => (s', .hit)
+    | (s', .admitted args) =>
+      if s'.kids n = [] then finishRun P fuel s' n args
+      else if (s'.kids n).any (fun k => s'.running k) then
+        match runFirst (fun t k => runAny P fuel d t k []) s' ((s'.kids n).filter fun k => s'.running k) with
+        | (s'', none) => ({ s'' with running := updF s''.running n false }, .invoked none)
+        | (s'', some e) =>
+          ({ s'' with running := updF s''.running n false, failed := updF s''.failed n true,
+                      cached := updF s''.cached n none }, .invoked (some e))
+      else
+        match runKids (fun t k => runAny P fuel d t k []) s'.deps s' (s'.kids n) [] false with
+        | (s'', false) => ({ s'' with running := updF s''.running n false }, .invoked none)
+        | (s'', true) =>
+          ({ s'' with running := updF s''.running n false, failed := updF s''.failed n true,
+                      cached := updF s''.cached n none }, .invoked (some .child))
+
+/-- `node.run(**kw)` with an executor: returns after admission; the job is outstanding -/
+def submitRun (P : Params) (fuel : Nat) (s : S) (n : Nat) (kw : List (Nat × Arg)) : S × Out :=
+  match admission P fuel s n kw with
+  | (s', .refused e) => (s', .err e)
+  | (s', .hit) => (s', .hit)
+  | (s', .admitted args) => ({ s' with pending := updF s'.pending n (s'.pending n ++ [args]) }, .submitted)
+
+/-- the executor finishes the oldest job of node `n`: the function runs on the submitted arguments (on a
+copy of the node, if the executor ships by value) and the callback processes the result locally -/
+def completeRun (P : Params) (fuel : Nat) (s : S) (n : Nat) : S × Out :=
+  match s.pending n with
+  | args :: rest => finishRun P fuel { s with pending := updF s.pending n rest } n args
+  | [] => (s, .ok)
+
 /-! ## pickle round trip (`__getstate__` / `__setstate__` of channels, nodes, composites, macros)
 
 `pickle.loads(pickle.dumps(obj))` (also through cloudpickle) builds a NEW object graph; the
@@ -330,7 +448,11 @@ def rtClear (P : Params) (s : S) (scope : List Nat) : S :=
       match s.recv c with
       | some r => if r ∈ scope then none else some r
       | none => none,
-    val := fun c => if c ∈ scope then P.copyVal (s.val c) else s.val c }
+    val := fun c => if c ∈ scope then P.copyVal (s.val c) else s.val c,
+    -- `Runnable.__getstate__`: no future travels; `Node.__getstate__`: a running node forgets its cache
+    pending := fun n => if n ∈ scope.map s.owner then [] else s.pending n,
+    cached := fun n => if n ∈ scope.map s.owner then
+        (if s.running n then none else (s.cached n).map (List.map P.copyVal)) else s.cached n }
 
 /-- `_get_connections_as_strings` -/
 def strings (s : S) (dom : List Nat) : List (Nat × Nat) :=
@@ -411,6 +533,8 @@ inductive Op
   | setStrict (c : Nat) (b : Bool)
   | flag (n : Nat) (running failed : Bool)
   | roundTrip (scope : List Nat) (comps : List Comp)
+  | submit (n : Nat) (kw : List (Nat × Arg))
+  | complete (n : Nat)
   deriving Repr
 
 def wrap (r : S × Option Err) : S × Out :=
@@ -428,7 +552,9 @@ def step (P : Params) (fuel : Nat) (s : S) : Op → S × Out
   | .connect a b => wrap (connectS P s a b)
   | .disconnect a b => (disconnectS P s a b, .ok)
   | .copyValues fh pin pout => wrap (copyValues P fuel fh s pin pout)
-  | .run n kw => runNode P fuel s n kw
+  | .run n kw => runAny P fuel fuel s n kw
+  | .submit n kw => submitRun P fuel s n kw
+  | .complete n => completeRun P fuel s n
   | .setStrict c b => ({ s with strict := updF s.strict c b }, .ok)
   | .flag n r f => ({ s with running := updF s.running n r, failed := updF s.failed n f }, .ok)
   | .roundTrip scope comps => wrap (roundTrip P fuel s scope comps)
@@ -438,9 +564,10 @@ def run (P : Params) (fuel : Nat) (s : S) (ops : List Op) : S :=
 
 /-- a fresh world: nothing connected, nothing stored, nothing linked, nothing running -/
 def init (kind : Nat → Kind) (owner : Nat → Nat) (hinted strict : Nat → Bool)
-    (ins outs : Nat → List Nat) : S :=
+    (ins outs : Nat → List Nat) (useCache : Nat → Bool := fun _ => false)
+    (kids deps : Nat → List Nat := fun _ => []) : S :=
   { kind, owner, conns := fun _ => [], val := fun _ => .nd, hinted, strict, recv := fun _ => none,
     ins, outs, running := fun _ => false, failed := fun _ => false, calls := [], clock := 0,
-    since := fun _ _ => 0 }
+    since := fun _ _ => 0, useCache, cached := fun _ => none, pending := fun _ => [], kids, deps }
 
 end PwVerif.Data
